@@ -261,6 +261,13 @@ def rule_lifecycle(ck):
         region = de.reach_from([tgt])
         ok = not any(de.call_at(b) is not None and re.search(r"send_event|send_events|emit_process_end", de.call_at(b).name) for b in region)
     ck.ob("wmc.lifecycle", "drain_events/silent-after-terminated", ok, "", de.loc())
+    # the queue is emptied on every path, including the early return after `terminated`: events queued by a
+    # finished session must not survive into the next launch/attach on the same connection
+    takes = [c for c in de.calls() if re.search(r"mem::take$|Vec::<T, A>::(append|drain|clear)$|mem::replace$|mem::swap$", c.name) and any(".events" in expr_str(expr_of(de, a), 6) for a in c.args)]
+    rets = set(de.return_blocks())
+    reach = de.reach_from([0], avoid={c.bb for c in takes}) if takes and 0 not in {c.bb for c in takes} else set()
+    ck.ob("wmc.lifecycle", "drain_events/queue-emptied-on-every-path", bool(takes) and not (reach & rets), "a return is reachable without taking the queued events out of self.events (stale events of a terminated session are delivered after the next launch)", de.loc(), what="drain_events leaves events queued when the session is terminated")
+    # sessions on the same connection: launch/attach reset the flag
     writers = who_calls(prog, lambda c: c.name.endswith("protocol::send_event") or c.path.endswith("DapTransport::write_message") or c.name.endswith("::write_message"))
     writers = [c for c in writers if c.fn.file.startswith("src/dap/yadap")]
     ck.floor("wmc.writers", "transport writers", len(writers), 4)
